@@ -194,6 +194,27 @@ func (r *Runner) run(spec *PropSpec) *runResult {
 			res.translate = append(res.translate, "lemma."+ln+": lemma not found in the contract files")
 		}
 	}
+	// global invariants of every package that contributes a function
+	pkgSeen := map[string]bool{}
+	for _, k := range keys {
+		if p := r.w.FuncPkg[k]; p != nil && !pkgSeen[p.PkgPath] {
+			pkgSeen[p.PkgPath] = true
+			has := false
+			for _, gi := range r.w.GlobalInvs {
+				if gi.Pkg == p {
+					has = true
+				}
+			}
+			if has {
+				fc := r.w.verifyGlobalInvs(p.PkgPath)
+				res.ctxs = append(res.ctxs, fc)
+				if fc.translateFail != "" {
+					res.translate = append(res.translate, shortKey(p.PkgPath)+".globals: "+fc.translateFail)
+				}
+				res.obls = append(res.obls, fc.obls...)
+			}
+		}
+	}
 	for _, k := range keys {
 		if r.w.FuncDecls[k] == nil {
 			res.translate = append(res.translate, shortKey(k)+": function not found in the repository")
@@ -213,6 +234,9 @@ func (r *Runner) run(spec *PropSpec) *runResult {
 		if r.canary {
 			// vacuity canary: "false" must not be provable at any return
 			for i, st := range fc.returns {
+				if strings.Contains(" "+fc.contract.Opts["unreachable"]+" ", fmt.Sprintf(" cover.ret.%d ", i+1)) {
+					continue
+				}
 				o := &Obligation{Name: fmt.Sprintf("%s#canary.%d", fc.funcShort(), i+1), Func: fc.funcShort(), Kind: "canary", Goal: "false", Guard: st.guard, NDecl: len(fc.decls), NFact: len(fc.facts), fc: fc, Cover: true, Text: "assert false must fail at return"}
 				res.obls = append(res.obls, o)
 			}
